@@ -3,7 +3,7 @@
 // Each case runs in a forked child (two of the scenarios abort by design: known findings D12/D13).
 //
 //   case  =  <traits: N | 0..7 (POCCA*4+POCMA*2+POCS) | 8 (std::allocator) | 16..23 (throwing allocator assignment)> <kind> <op> <sstate> <tstate> <sid> <tid> <aid> <post>
-//   kind  :  native TU (-DNATIVE): Array ArrayIC Seg HashSet HashMap HashMulti TreeSet TreeMap
+//   kind  :  native TU (-DNATIVE): HashSetInl TreeSetInl (inline crew, stateful traits: ids are traits states) Array ArrayIC Seg HashSet HashMap HashMulti TreeSet TreeMap
 //            wrapper TU (-DTRAITS=k): vec set mset map mmap uset umap ummap
 //   op    :  copyc copyca movec moveca copya movea swap selfcopya selfmovea selfswap none merge(TreeSet/TreeMap, empty target)
 //   state :  e | n<k> | c<k> (k inserted, all erased) | g<k> (hash: growth refused -> overloaded table) | h<k> (hash: relocation interrupted -> several generations) |
@@ -300,6 +300,67 @@ struct AdTable
 		g_unusual = true;
 	}
 };
+
+// ---- inline-crew configurations (round 4): Settings::checkVersion = false + the stateless default manager select
+// SetCrew<..., false> (traits and manager as private bases); the traits are STATEFUL (hash seed / comparison direction), so
+// a container that holds another container's body under its own traits cannot find its keys / iterates in the wrong order.
+// For these kinds the "id" of a container is the state of its traits.
+struct SeedHash
+{
+	int seed; explicit SeedHash(int s = 0) : seed(s) {}
+	size_t operator()(const E& e) const { return size_t((uint64_t(e.Value()) * 0x9E3779B97F4A7C15ull) ^ (uint64_t(seed) * 0xC2B2AE3D27D4EB4Full)) >> (seed % 7); }
+};
+struct PlainEq { bool operator()(const E& a, const E& b) const { return a.Value() == b.Value(); } };
+struct DirLess
+{
+	int id; explicit DirLess(int i = 1) : id(i) {}
+	bool desc() const { return id % 2 == 0; }
+	bool operator()(const E& a, const E& b) const { return desc() ? b.Value() < a.Value() : a.Value() < b.Value(); }
+};
+struct InlHashSettings : public momo::HashSetSettings { static const bool checkVersion = false; };
+struct InlTreeSettings : public momo::TreeSetSettings { static const bool checkVersion = false; };
+typedef momo::MemManagerDefault DMM;
+typedef momo::HashTraitsStd<E, SeedHash, PlainEq> IHTraits;
+typedef momo::HashSet<E, IHTraits, DMM, momo::HashSetItemTraits<E, DMM>, InlHashSettings> IHashSet;
+typedef momo::TreeTraitsStd<E, DirLess, false, momo::TreeNode<4, 2>> ITTraits;
+typedef momo::TreeSet<E, ITTraits, DMM, momo::TreeSetItemTraits<E, DMM>, InlTreeSettings> ITreeSet;
+static_assert(std::is_base_of<IHTraits, decltype(IHashSet::mCrew)>::value, "HashSetInl must use the inline crew");
+static_assert(std::is_base_of<ITTraits, decltype(ITreeSet::mCrew)>::value, "TreeSetInl must use the inline crew");
+template<typename C> struct InlSet
+{
+	typedef C Cont; static const bool crew = true, multi = false, alloc_move_ctor = false, is_stdish = false, inline_crew = true;
+	static void ins(C& c, int64_t v) { c.Insert(E(v)); }
+	static void erase_all(C& c) { Vals k = contents(c); for (int64_t v : k) c.Remove(E(v)); }
+	static void erase1(C& c, int64_t v) { c.Remove(E(v)); }
+	static Vals contents(const C& c) { Vals r; for (const E& e : c) r.push_back(e.Value()); std::sort(r.begin(), r.end()); return r; }
+	static bool find(const C& c, int64_t v) { return c.ContainsKey(E(v)); }
+	static size_t count(const C& c) { return c.GetCount(); }
+	static void clear(C& c) { c.Clear(); }
+	static void swap(C& a, C& b) { a.Swap(b); }
+	static C copy_with(const C& c, int) { return C(c, DMM()); }
+	static C move_with(C&& c, int) { return C(std::move(c)); }
+	static void unusual(C&, char, int) { g_unusual = true; }
+};
+struct AdHashSetInl : InlSet<IHashSet>
+{
+	static IHashSet make(int id) { return IHashSet(IHTraits(size_t{1} << IHTraits::HashBucket::logStartBucketCount, SeedHash(id), PlainEq()), DMM()); }
+	static int id(const IHashSet& c) { return c.GetHashTraits().GetHashFunc().seed; }
+	static std::string structure(const IHashSet& c) { return hash_structure(c); }
+	static bool order_ok(const IHashSet&) { return true; }
+};
+struct AdTreeSetInl : InlSet<ITreeSet>
+{
+	static ITreeSet make(int id) { return ITreeSet(ITTraits(DirLess(id)), DMM()); }
+	static int id(const ITreeSet& c) { return c.GetTreeTraits().GetLessFunc().id; }
+	static std::string structure(const ITreeSet& c) { return tree_structure(c); }
+	// the traversal order must be the one of the comparator the set holds NOW
+	static bool order_ok(const ITreeSet& c)
+	{
+		const DirLess& less = c.GetTreeTraits().GetLessFunc(); const E* prev = nullptr;
+		for (const E& e : c) { if (prev != nullptr && !less(*prev, e)) return false; prev = &e; }
+		return true;
+	}
+};
 #else
 // ------------------------------------------------------------------------------------------- stdish wrappers
 #ifndef TRAITS
@@ -484,6 +545,8 @@ void AdUMap::unusual(SUMap& c, char kind, int n) { if (kind == 'g' || kind == 'h
 #endif
 
 // ------------------------------------------------------------------------------------------- generic driver
+template<typename Ad, typename = void> struct HasInline : std::false_type {};
+template<typename Ad> struct HasInline<Ad, std::void_t<decltype(Ad::inline_crew)>> : std::true_type {};
 template<typename Ad, typename = void> struct HasMerge : std::false_type {};
 template<typename Ad> struct HasMerge<Ad, std::void_t<decltype(&Ad::merge)>> : std::true_type {};
 struct Case { std::string kind, op, ss, ts, post, sst, tst, est; int sid, tid, aid; };
@@ -553,6 +616,17 @@ template<typename Ad> static void run_case(const Case& cs, FILE* out)
 		// ---- the property's predicate on the main operation (independent of the Coq model)
 		bool iscopy = op.compare(0, 4, "copy") == 0, ismove = op.compare(0, 4, "move") == 0;
 		if (Ad::count(S) != sc.size() || (!self && !none && Ad::count(T) != tc.size())) fail("count-differs-from-iteration");
+		if constexpr (Ad::crew)
+		{
+			// the container must behave per the traits it holds NOW: find every key it contains (hash functor / comparator state)
+			if (tId != -1 && !self && !none) for (size_t i = 0; i < tc.size(); i += (tc.size() > 40 ? 7 : 1)) if (!Ad::find(T, tc[i])) { fail("target-cannot-find-its-own-key"); break; }
+			if (sId != -1) for (size_t i = 0; i < sc.size(); i += (sc.size() > 40 ? 7 : 1)) if (!Ad::find(S, sc[i])) { fail("source-cannot-find-its-own-key"); break; }
+		}
+		if constexpr (HasInline<Ad>::value)
+		{
+			if (!self && !none && !Ad::order_ok(T)) fail("target-traversal-order-is-not-its-comparators");
+			if (!Ad::order_ok(S)) fail("source-traversal-order-is-not-its-comparators");
+		}
 		if (iscopy) { if (tc != s0) fail("copy-differs-from-source"); if (sc != s0) fail("copy-changed-source"); }
 		if (ismove)
 		{
@@ -560,7 +634,7 @@ template<typename Ad> static void run_case(const Case& cs, FILE* out)
 			if (!sc.empty()) fail("move-left-source-non-empty");
 			bool keycopies_allowed = (cs.kind == "ummap" && sId != -1);     // element-wise path copies const keys
 			if (dc != 0 && !keycopies_allowed) fail("move-copied-elements");
-			if (sId != -1 && Ad::crew && !s0.empty() && dm < s0.size()) fail("elementwise-move-did-not-move-each-element");
+			if (sId != -1 && Ad::crew && !HasInline<Ad>::value && !s0.empty() && dm < s0.size()) fail("elementwise-move-did-not-move-each-element");
 		}
 		if (op == "swap") { if (tc != s0 || sc != t0) fail("swap-not-exact"); if (dc != 0) fail("swap-copied-elements"); }
 		if (self) { if (sc != s0) fail("self-op-changed-contents"); if (dc != 0 && op != "selfcopya") fail("self-op-copied"); if (sId != cs.sid) fail("self-op-changed-manager"); }
@@ -569,7 +643,7 @@ template<typename Ad> static void run_case(const Case& cs, FILE* out)
 		std::string tie1;
 		{
 			char buf[64]; snprintf(buf, sizeof buf, " mv=%d cp=%d", dm > 0 && !iscopy, dc > 0);   // element moves inside a fresh copy are its own business
-			bool ew = (op == "movea" || op == "moveca") && Ad::crew && sId != -1;      // element-wise path: rebuilt by insertion (shape = the token est)
+			bool ew = (op == "movea" || op == "moveca") && Ad::crew && sId != -1 && !HasInline<Ad>::value;      // element-wise path: rebuilt by insertion (shape = the token est)
 			bool mergex = op == "merge" && !s0.empty() && !(t0.empty() && cs.sid == cs.tid);           // merge other than the swap path: joined / rebuilt tree
 			if (mergex) ew = true;
 			std::string tst2 = (self || none) ? "-" : mergex ? "?" : Ad::structure(T);
@@ -688,6 +762,8 @@ static bool dispatch(const Case& cs, FILE* out)
 	else if (cs.kind == "TreeSet") run_case<AdTreeSet>(cs, out);
 	else if (cs.kind == "TreeMap") run_case<AdTreeMap>(cs, out);
 	else if (cs.kind == "DataTable") run_case<AdTable>(cs, out);
+	else if (cs.kind == "HashSetInl") run_case<AdHashSetInl>(cs, out);
+	else if (cs.kind == "TreeSetInl") run_case<AdTreeSetInl>(cs, out);
 	else return false;
 #else
 	if (cs.kind == "vec") run_case<AdVec>(cs, out);
